@@ -38,7 +38,7 @@ Definition shape_of (l : lock_summary) : mshape :=
 
 Definition api_ok (methods : list lock_summary) (name : string) : bool :=
   match find (fun l => String.eqb (lm_name l) name) methods with
-  | Some l => well_locked (shape_of l) && negb (lm_spawns l)
+  | Some l => well_locked (shape_of l) && negb (lm_spawns l) && Nat.leb (lm_sections l) 1
   | None => false
   end.
 
